@@ -1530,7 +1530,7 @@ Fixpoint gofs' (fs : list (finfo * gval)) : list item :=
   | [] => []
   | (i, x) :: r =>
       (if extractable i then
-         if f_anon i then items_of ic x
+         if flattened i x then items_of ic x
          else [(i, should_include ic i (is_empty x) (is_value_zero x), plain ic x)]
        else []) ++ gofs' r
   end.
@@ -1557,7 +1557,7 @@ Definition plain_fields (fs : list (finfo * gval)) : Prop :=
 Lemma gofs_orders fs : plain_fields fs -> Forall (fun it : item => gitem_order it = max_order) (gofs' fs).
 Proof.
   induction 1 as [|[i x] r [Ha Ho] _ IH]; [constructor|]. cbn [gofs' fst] in *.
-  destruct (extractable i); [|exact IH]. rewrite Ha. cbn [app]. constructor; [exact Ho | exact IH].
+  destruct (extractable i); [|exact IH]. unfold flattened. rewrite Ha. cbn [andb app]. constructor; [exact Ho | exact IH].
 Qed.
 
 Definition field_plain (iv : finfo * gval) : list event :=
@@ -1570,7 +1570,7 @@ Proof.
   rewrite (sort_same (@gitem_order (list event)) max_order _ (gofs_orders fs Hp)). f_equal. f_equal.
   induction Hp as [|[i x] r [Ha Ho] _ IH]; [reflexivity|].
   cbn [gofs' flat_map fst snd] in *. unfold field_plain at 1, keptf. cbn [fst snd].
-  destruct (extractable i); cbn [andb]; [|exact IH]. rewrite Ha. cbn [app filter fst snd].
+  destruct (extractable i); cbn [andb]; [|exact IH]. unfold flattened. rewrite Ha. cbn [andb app filter fst snd].
   destruct (should_include ic i (is_empty x) (is_value_zero x)); cbn [flat_map fst snd app]; rewrite IH; reflexivity.
 Qed.
 
